@@ -165,7 +165,7 @@ def restrict_choice(g: G, tree, m, linear: bool):
     opts = ["+", "-"]
     if linear:
         opts += ["avg", "jump"]
-        if len(sh) <= 1 and g.gdim == g.tdim:
+        if (len(sh) == 0 or sh == (g.gdim,)) and g.gdim == g.tdim and g.cell != "prism":
             opts.append("jumpn")
     op = g.pick(opts)
     g.features.add("restr:" + op)
@@ -500,7 +500,7 @@ def gen_metadata(draw, pr, cell, m):
     if m == "dP":
         return md
     if draw(st.floats(0, 1)) < pr.get("p_degree", 0.7):
-        md["quadrature_degree"] = draw(st.integers(0, pr.get("max_qdeg", 5)))
+        md["quadrature_degree"] = draw(st.integers(pr.get("min_qdeg", 0), pr.get("max_qdeg", 5)))
     r = draw(st.floats(0, 1))
     # entity the rule lives on
     ent_is_point = (m in ("ds", "dS") and tdim == 1) or (m == "dr" and tdim == 2)
@@ -560,6 +560,9 @@ def form_specs(draw, profile=None):
     allowed = pr.get("element_tags")
     if allowed:
         pool = [(t, E) for t, E in pool if t in allowed]
+    if pr.get("tp"):
+        # tensor-product factorised elements (the only ones sum factorisation accepts), as in test_tensor_product.py
+        pool = [("tpQ", ["tp", d, []]) for d in range(1, maxdeg + 1)] + [("tpvecQ", ["tp", d, [gdim]]) for d in (1, 2)]
     arity = draw(st.sampled_from(pr["arities"]))
     nint = draw(st.integers(1, pr["max_integrals"]))
     int_measures = [draw(st.sampled_from(measures)) for _ in range(nint)]
@@ -587,7 +590,7 @@ def form_specs(draw, profile=None):
     if arity >= 1:
         args.append(new_element(True))
     if arity == 2:
-        args.append(args[0] if draw(st.floats(0, 1)) < 0.6 else new_element(True))
+        args.append(args[0] if (pr.get("same_args") or draw(st.floats(0, 1)) < 0.6) else new_element(True))
     coefs = [new_element() for _ in range(ncoef)]
     const_shapes = [[], [], [gdim], [gdim, gdim], [2], [3], [2, 3]]
     consts = [draw(st.sampled_from(const_shapes)) for _ in range(nconst)]
@@ -602,6 +605,8 @@ def form_specs(draw, profile=None):
         "consts": consts,
         "integrals": [],
     }
+    if pr.get("tp"):
+        spec["tp"] = True
     g = G(draw, spec, pr)
     for j in range(nint):
         m = int_measures[j]
